@@ -100,6 +100,10 @@ def run_case(c: dict) -> CaseResult:
     def answer(sess):
         hello = pb.HelloResponse(api_version_major=c["major"], api_version_minor=c["minor"], name=c["api_name"], server_info="sim")
         conn = pb.ConnectResponse(invalid_password=bool(c["invalid_password"]))
+        if c.get("unknown_fields"):
+            # newer firmware: the answers carry fields this client's api.proto does not know (legal protobuf; ignored)
+            hello = (2, hello.SerializeToString() + b"\xa0\x06\x01")          # field 100, varint 1
+            conn = (4, conn.SerializeToString() + b"\x10\x01\xaa\x06\x02hi")  # field 2 varint, field 101 bytes
         seq = {"hc": [hello, conn], "ch": [conn, hello], "hh": [hello, hello], "h": [hello], "c": [conn]}[c["order"]]
         if c.get("separate"):
             for i, m in enumerate(seq):
@@ -244,6 +248,8 @@ def _case(draw, tier):
     }
     if noise:
         c["noise_name"] = draw(st.sampled_from(NOISE_NAMES + [None, "dev"]))
+    if draw(st.integers(0, 4)) == 1:
+        c["unknown_fields"] = True
     if draw(st.integers(0, 3)) == 2:
         c["exp_via"] = draw(st.sampled_from([1, 2]))
         c["ctor_expected"] = draw(st.sampled_from([None, "other", "dev"]))
@@ -286,6 +292,8 @@ def enumerated(tier):
                                                 for via in (1, 2):
                                                     for ce in (None, "other", "dev"):
                                                         yield {**c, "exp_via": via, "ctor_expected": ce}
+                                            if minor == 10 and pw is None and order in ("hc", "ch"):
+                                                yield {**c, "unknown_fields": True}
                                             k = (major + len(an) + len(order) + (1 if ip else 0)) % 3
                                             if k == 1:
                                                 c["cuts"] = [5, 17]
